@@ -8,7 +8,7 @@ from sa.absint import Evaluator, all_effects, flatten_effects
 from sa.index import AnalysisError
 from sa.teval import ge0_form, lin_key
 from sa.terms import App, Const, Ref, Sym, cases, dict_pairs, list_items, subterms
-from . import argname
+from . import argname, generic
 from .c11 import _with_guards
 from .layout import find_effect_calls
 
@@ -129,8 +129,7 @@ def add_envelope_rules(ctx):
     outs = ev.outcomes(fi)
     rets = [o for o in outs if o.kind == "return"]
     raises = [o for o in outs if o.kind == "raise"]
-    if len(rets) != 1:
-        raise AnalysisError(f"{fq}: expected one normal outcome")
+    rets = generic.sole_outcome(ctx, rets, f"{fq}: expected one normal outcome")
     o = rets[0]
     env = P("envelope")
     desc = App("attr:_envelope", (env,))
@@ -353,8 +352,7 @@ def ordering_rules(ctx):
     fi = repo.func(IMG, "ImageCreator._create_suit_storage_files_for_boot")
     fq = ctx.fq(fi)
     outs = [o for o in ev.outcomes(fi) if o.kind == "return"]
-    if len(outs) != 1:
-        raise AnalysisError(f"{fq}: expected one outcome")
+    outs = generic.sole_outcome(ctx, outs, f"{fq}: expected one outcome")
     ok = True
     saw = False
     for seq in flatten_effects(outs[0].effects, twice=True):
@@ -378,8 +376,7 @@ def ordering_rules(ctx):
             mod=fi.module, node=fi.node, function=fq, expected="storage.add_envelope(envelope) for envelope in envelopes", found=repr(adds)[:200])
     top = repo.func(IMG, "ImageCreator.create_files_for_boot")
     touts = [o for o in ev.outcomes(top) if o.kind == "return"]
-    if len(touts) != 1:
-        raise AnalysisError(f"{ctx.fq(top)}: expected one normal outcome")
+    touts = generic.sole_outcome(ctx, touts, f"{ctx.fq(top)}: expected one normal outcome")
     writes = [e for e in all_effects(touts[0].effects) if isinstance(e, App) and (e.op == "eff:write" or (
         e.op == "eff:open" and len(e.args) > 1 and isinstance(e.args[1], Const) and isinstance(e.args[1].v, str) and set(e.args[1].v) & set("wax+"))
         or (e.op == "eff:call" and isinstance(e.args[0], App) and e.args[0].op in ("meth:write_hex_file", "meth:tofile", "meth:write")))]
